@@ -159,12 +159,13 @@ def thread_scenarios(tier):
             prep=[sb('A', [bf('d/a', cmp=cmp, args=[1])])],
             threads=[[bf('d/a', 'w2', cmp=cmp, args=[2])], [sb('A', [bf('d/a', cmp=cmp, args=[1])])]],
             after=[sb('reader', [{'o': 'q', 'kind': 'readh' if cmp == 'HASH' else 'read', 'p': 'd/a', 'cmp': cmp}], args=(7,))])
+    # the lookup starts before the first call claims the file (needs two preemptions: explored to bound 2 in both tiers)
+    S['T12b_HASH_lookup_started_before_the_claim'] = dict(
+        bound=2,
+        prep=[sb('A', [bf('d/a', cmp='HASH', args=[1])])],
+        threads=[[sb('A', [bf('d/a', cmp='HASH', args=[1])])], [bf('d/a', 'w2', cmp='HASH', args=[2])]],
+        after=[sb('reader', [{'o': 'q', 'kind': 'readh', 'p': 'd/a', 'cmp': 'HASH'}], args=(7,))])
     if tier != 'quick':
-        # the lookup starts before the first call claims the file (needs two preemptions)
-        S['T12b_HASH_lookup_started_before_the_claim'] = dict(
-            prep=[sb('A', [bf('d/a', cmp='HASH', args=[1])])],
-            threads=[[sb('A', [bf('d/a', cmp='HASH', args=[1])])], [bf('d/a', 'w2', cmp='HASH', args=[2])]],
-            after=[sb('reader', [{'o': 'q', 'kind': 'readh', 'p': 'd/a', 'cmp': 'HASH'}], args=(7,))])
         S['T9_three_threads_same_subbuild'] = dict(threads=[[sb('s')], [sb('s')], [sb('s')]])
     return S
 
@@ -254,7 +255,7 @@ def thread_work(ctx, task):
         o = R.run_sequential(sc, order)
         seqs.setdefault(json.dumps(o, sort_keys=True), order)
         counters['executions'] += 1
-    b = {'quick': 1, 'thorough': 2}[task['tier']]
+    b = max(sc.get('bound', 0), {'quick': 1, 'thorough': 2}[task['tier']])
     s1, o1 = R.run_concurrent(sc, [])
     s2, o2 = R.run_concurrent(sc, [])
     if json.dumps(o1, sort_keys=True) != json.dumps(o2, sort_keys=True) or s1.choices != s2.choices:
